@@ -10,7 +10,7 @@ LEVEL = "exploration"
 FLAVORS = ["asan"]
 RULE = ("random trees (depth<=3) with prefer/avoid/both xattrs (trusted.* and user.*), memory.oom.group, populated flags, well separated "
         "and tie-heavy metric values, all five kill plugins, recursive on/off, scripted per-cgroup outcomes (success / every pid ESRCH), "
-        "2-3 ticks; plus an exhaustive sweep of every (preference incl. both marks x oom.group x populated x outcome) assignment on all tree shapes with "
+        "2-3 ticks, every twelfth case with a peer group of 17-40 siblings (sorting routines change algorithm above 16 elements); plus an exhaustive sweep of every (preference incl. both marks x oom.group x populated x outcome) assignment on all tree shapes with "
         "<=3 cgroups below the target. The observed sequence of attempted victims (uuid xattr markers at setxattr(2)) must be one of the "
         "sequences the documented walk allows (ties in (preference, metric) admit any order); in a fifth of the cases a prekill hook stays pending for "
         "0-3 ticks per victim, so the walk is suspended and resumed from its saved fallback stack, and the attempts of the whole chain are compared. "
